@@ -494,10 +494,11 @@ class DefTag(Tag):
         for c in list(self.function_decl.defaults) + [
             d for d in self.function_decl.kwdefaults if d is not None
         ]:
+            code = ast.PythonCode(c, **self.exception_kwargs)
             res += list(
-                ast.PythonCode(
-                    c, **self.exception_kwargs
-                ).undeclared_identifiers
+                code.undeclared_identifiers.difference(
+                    code.declared_identifiers
+                )
             )
         return (
             set(res)
